@@ -62,6 +62,12 @@ fn materialize(t: &Value, style: u64) -> Vec<u8> {
                 s.push('\n');
                 s.into_bytes()
             }
+            // the compact text followed by white space only
+            5 => {
+                let mut s = v.to_string();
+                s.push_str(" \t\n");
+                s.into_bytes()
+            }
             _ => v.to_string().into_bytes(),
         };
     }
